@@ -194,11 +194,34 @@ def _lift_conditionals(e, limit=6):
     def bound(atom):
         return "⟦c" in atom or "⟦l" in atom  # mentions a comprehension or lambda variable
 
+    nodes = {}
+
+    def atom_nodes(t):
+        """atom text -> AST of the atom (the positive form for ``not in`` / ``!=`` / ``is not``)."""
+        if isinstance(t, ast.BoolOp):
+            for v in t.values:
+                atom_nodes(v)
+        elif isinstance(t, ast.UnaryOp) and isinstance(t.op, ast.Not):
+            atom_nodes(t.operand)
+        elif isinstance(t, ast.IfExp):
+            atom_nodes(t.test)
+            atom_nodes(t.body)
+            atom_nodes(t.orelse)
+        elif isinstance(t, ast.Compare) and len(t.ops) == 1 and isinstance(t.ops[0], (ast.NotIn, ast.NotEq, ast.IsNot)):
+            pos = {ast.NotIn: ast.In, ast.NotEq: ast.Eq, ast.IsNot: ast.Is}[type(t.ops[0])]()
+            n = ast.Compare(left=t.left, ops=[pos], comparators=t.comparators)
+            nodes.setdefault(U(n), n)
+        elif isinstance(t, ast.Compare) and len(t.ops) == 1 and isinstance(t.comparators[0], ast.Constant) and t.comparators[0].value is None and isinstance(t.ops[0], ast.Is):
+            nodes.setdefault(f"{U(t.left)} is None", t)
+        else:
+            nodes.setdefault(U(t), t)
+
     def tests(node, acc):
         if isinstance(node, ast.IfExp):
             ats = bool_atoms(node.test)
             if not any(bound(a) for a in ats):
                 acc |= ats
+                atom_nodes(node.test)
         for ch in ast.iter_child_nodes(node):
             tests(ch, acc)
 
@@ -229,11 +252,10 @@ def _lift_conditionals(e, limit=6):
         t, f = build(i + 1, {**asg, a: True}), build(i + 1, {**asg, a: False})
         if U(t) == U(f):
             return t
-        try:
-            test = ast.parse(a, mode="eval").body
-        except SyntaxError:
+        test = nodes.get(a)
+        if test is None:
             return cur
-        return ast.IfExp(test=test, body=t, orelse=f)
+        return ast.IfExp(test=copy.deepcopy(test), body=t, orelse=f)
 
     return build(0, {})
 
@@ -440,6 +462,25 @@ class _Prepass:
                 new = ast.If(test=e.test, body=self.split_ifexp(mk(e.body)), orelse=self.split_ifexp(mk(e.orelse)))
                 ast.copy_location(new, st)
                 return [new]
+        if isinstance(st, (ast.Expr, ast.Assign, ast.Return)) and isinstance(st.value, ast.Call) and self.summ.impure_calls(st.value) == [st.value]:
+            # an impure call whose arguments choose between pure alternatives: f(a if c else b) -> if c: f(a) else: f(b)
+            call = st.value
+            slots = [("a", i) for i, a in enumerate(call.args) if isinstance(a, ast.IfExp)] + [("k", i) for i, k in enumerate(call.keywords) if isinstance(k.value, ast.IfExp)]
+            if len(slots) == 1:
+                kind_, i_ = slots[0]
+                cond = (call.args[i_] if kind_ == "a" else call.keywords[i_].value)
+                def variant(arm):
+                    c2 = copy.deepcopy(call)
+                    if kind_ == "a":
+                        c2.args[i_] = copy.deepcopy(arm)
+                    else:
+                        c2.keywords[i_].value = copy.deepcopy(arm)
+                    n = copy.copy(st)
+                    n.value = c2
+                    return n
+                new = ast.If(test=cond.test, body=self.split_ifexp(variant(cond.body)), orelse=self.split_ifexp(variant(cond.orelse)))
+                ast.copy_location(new, st)
+                return [new]
         if isinstance(st, (ast.Expr, ast.Assign, ast.Return)) and isinstance(st.value, ast.Call):
             # f(..., A if c else B, ...) where only that argument is impure: evaluate it first into a temporary
             call = st.value
@@ -537,8 +578,15 @@ class Summary:
                 node = self.generic_visit(node)  # children first (evaluation order: func, args)
                 if outer.pure_call(node):
                     return node
-                txt = U(outer._stamp(node, ep[0]))
-                items.append(("call", txt))
+                # a call whose (pure) arguments choose between alternatives is the same as choosing between calls
+                lifted = _lift_conditionals(node, limit=3) if any(isinstance(x, ast.IfExp) for a in list(node.args) + [k.value for k in node.keywords] for x in ast.walk(a)) else node
+
+                def emit(n):
+                    if isinstance(n, ast.IfExp):
+                        return [("if", n.test, emit(n.body) + [("fall",)], emit(n.orelse) + [("fall",)])]
+                    return [("call", U(outer._stamp(n, ep[0])))]
+
+                items.extend(emit(lifted))
                 ep[0] += 1
                 return _sym(f"r{ep[0] - 1}")
 
